@@ -799,7 +799,7 @@ Proof.
                | None => (inl (DdsErr "NONE"), s)
                | Some key => match blookup key (s_blobs s) with
                              | Some v => (inr (add_local en v), s)
-                             | None => (inr (add_local en (RVal VNone)), s)
+                             | None => (inl (DdsErr "NONE"), s)
                              end
                end
      end : (outcome + env) * state).
